@@ -96,3 +96,10 @@ def fill(check, na):
           "configurations in the thorough tier); six close modes.",
           "Real aioice over local UDP in real time; step numbering varies slightly with network timing; a close() pending at the cap while waiting on a timer/socket is inconclusive.",
           "DESIGN.md 3/C19")
+    check("C11", "closed-loop history oracle: real RTCRtpSender -> fault links -> real RTCRtpReceiver in virtual time with a decoder tap; every handed-over frame is matched byte for byte against the sent frames (uid payloads), NACK/RTX obligations are checked against the link's drop log",
+          "Held on the runs produced: every frame handed to the decoder was a sent frame (or a legitimate tail after start / PLI), "
+          "in order, once; every packet lost while requests and retransmissions got through was NACKed and resent (RTX when "
+          "negotiated) and every frame of that phase was delivered; NACKs stayed within the 128-packet history. Fault schedules, "
+          "frame sizes, codecs, RTX and sequence/timestamp origins (incl. wrap) are sampled.",
+          "DTLS/SRTP bypassed (C04 covers them); decoder thread replaced by a synchronous tap; virtual time.",
+          "DESIGN.md 3/C11")
